@@ -491,6 +491,7 @@ impl<'p> World<'p> {
             Step::Validate { validator, claims, now_ns, mapped } => crate::codec::validate_step(self, validator, claims, now_ns.0, *mapped),
             Step::Codec { case } => crate::codec::codec_step(self, case),
             Step::Threads { spec } => crate::sched::run_threads(self, spec),
+            Step::Rotation { spec } => crate::rotate::run_rotation(self, spec),
             Step::History { node, op, count, tag } => crate::hist::run_history(self, *node, *op, *count, *tag),
         }
     }
@@ -1491,6 +1492,12 @@ impl<'p> World<'p> {
                     si.is_some() && ni.is_some() && si != ni
                 }
             }
+            // k3.seal (RustCrypto): the ephemeral key is the base-point multiple of the last 48-byte draw, and
+            // that draw is a valid scalar (an out-of-range candidate is discarded and drawn again, never folded)
+            WrapKind::Pke if bk == Bk::V3 => match draws.iter().rev().find(|d| d.bytes.len() == 48) {
+                Some(d) if crate::curves::p384_scalar_valid(&d.bytes) => data.len() >= 97 && refimpl::p384_public_of_scalar(&d.bytes).as_deref() == Some(&data[48..97]),
+                _ => false,
+            },
             WrapKind::Pke => !draws.is_empty(),
         };
         if !attributable {
